@@ -1,8 +1,12 @@
 //go:build verif
 // +build verif
 
-// Contracts for package txmgr, checked by /verif/cmd/govc (comment-only file; see /verif/DESIGN.md).
+// Contracts for package txmgr, checked by /verif/cmd/govc (contract comments plus specification functions, all behind the verif build tag; see /verif/DESIGN.md).
 package txmgr
+
+// VerifWF is a specification function (build tag verif only): the well-formedness of a store object, for contracts
+// of other packages that cannot name its unexported fields.  Expanded by the checker wherever a contract uses it.
+func (s *UtxoStore) VerifWF() bool { return s != nil && s.bucketMeta != nil }
 
 //@ func canonicalOutPoint
 //@   props C09 C01 C19
@@ -550,4 +554,5 @@ package txmgr
 
 //@ func (*UtxoStore).ExistCreditFromTx
 //@   props C19
-//@   requires s != nil && rtx != nil && hash != nil
+//@   requires s.VerifWF() && rtx != nil && hash != nil
+//@   modifies gmap("iterkey")
